@@ -138,6 +138,10 @@ def step (s : DState) (toks : List String) : DState × String :=
     | some m =>
       let x := Impl.setMaxSize s.impl m
       ({ s with impl := x }, s!"ok {showImpl x}")
+  -- stream `keys`: the spec side of KeyComplete (theorem `cache_invisible`): generation with a warm shared
+  -- cache equals generation from scratch, for every pair of proxies
+  | ["case", _, _, _] => (s, "ok")
+  | ["pair", _, _] => (s, "eq")
   | "case" :: _ => (DState.init, "bad-op")
   | _ => bad s
 
